@@ -14,6 +14,7 @@ Streams (model `Wpull.HttpWire` vs the real code in the wpull tree under test):
            line) and through WebClient / WebSession with duration_timeout None / 30 / ...
   leave    the REAL Client + ConnectionPool with sessions that are not completed (header only,
            left by exception, aborted) while the rest of the response is still on its way
+  onestream several exchanges through ONE Stream object: content-coded, bodiless, identity  oracle only
   timeout  ONE Connection(timeout=...) object through stalls (read timeout), closes and
            reconnects: a stall ends in NetworkTimedOut, later exchanges are unaffected
   session  the REAL Client/Session on a reactive server (response k+1 is sent only after
@@ -799,6 +800,70 @@ def stream_leave(ctx, seqs):
         ctx.sample({'stream': 'leave', 'sequences': len(metas), 'leaves': [e['leave'] for e in metas[0][0]]})
 
 
+# ------------------------------------------------------------------ one Stream object, several exchanges
+def onestream_plans():
+    """Several exchanges through ONE `Stream` object (as stream_test.py drives it): a content-coded
+    response, optionally bodiless ones, then a body-carrying response WITHOUT a content coding."""
+    import gzip
+    import zlib
+    plain = b'compressed payload of the first response'
+    coded = [('gzip', b'gzip', gzip.compress(plain)), ('deflate', b'deflate', zlib.compress(plain)),
+             ('raw-deflate', b'Deflate', H.raw_deflate(plain))]
+    between = {'none': [], '304': [(_mk(b'HTTP/1.1 304 NM\r\nContent-Length: 9\r\n\r\n', code=304, framing='none'), 'GET')],
+               'head': [(_mk(b'HTTP/1.1 200 OK\r\nContent-Encoding: gzip\r\nContent-Length: 9\r\n\r\n', framing='none'), 'HEAD')],
+               '204+unknown': [(_mk(b'HTTP/1.1 204 NC\r\n\r\n', code=204, framing='none'), 'GET'),
+                               (_mk(b'HTTP/1.1 200 OK\r\nContent-Encoding: br\r\nContent-Length: 2\r\n\r\n', b'br'), 'GET')]}
+    identity = [_mk(b'HTTP/1.1 200 OK\r\nContent-Length: 14\r\n\r\n', b'identity body!'),
+                _mk(b'HTTP/1.1 200 OK\r\nTransfer-Encoding: chunked\r\n\r\n', b'5\r\nplain\r\n0\r\n\r\n', b'plain', framing='chunked'),
+                _mk(b'HTTP/1.1 200 OK\r\nContent-Encoding: identity\r\nContent-Length: 3\r\n\r\n', b'abc')]
+    plans = []
+    for name, ce, payload in coded:
+        for framing in ('length', 'chunked'):
+            if framing == 'length':
+                first = _mk(b'HTTP/1.1 200 OK\r\nContent-Encoding: ' + ce + b'\r\nContent-Length: %d\r\n\r\n' % len(payload), payload)
+            else:
+                first = _mk(b'HTTP/1.1 200 OK\r\nContent-Encoding: ' + ce + b'\r\nTransfer-Encoding: chunked\r\n\r\n',
+                            b'%x\r\n' % len(payload) + payload + b'\r\n0\r\n\r\n', payload, framing='chunked')
+            first.coding = name
+            for bname, mids in between.items():
+                for last in identity:
+                    exs = []
+                    for k, (m, method) in enumerate([(first, 'GET')] + mids + [(last, 'GET'), (first, 'GET'), (last, 'GET')]):
+                        exs.append({'segs': fakenet.segment(m.message, [len(m.head)] if k % 2 else []), 'eof': False, 'method': method,
+                                    'version': 'HTTP/1.1', 'path': '/o%d' % k, 'msg': m, 'what': 'ok', 'data': m.message})
+                    plans.append({'stream': 'onestream', 'exchanges': exs, 'between': bname})
+    return plans
+
+
+def stream_onestream(ctx, plans):
+    """Oracle only: every well-formed response read through the shared Stream object reaches the
+    caller with exactly its delimited, decoded payload."""
+    for plan in plans:
+        exs = plan['exchanges']
+        results, nconn = H.real_timeout_sequence(exs, 30.0)
+        case = {'stream': 'onestream', 'between': plan.get('between'),
+                'exchanges': [{'segs': e['segs'], 'eof': e['eof'], 'method': e['method'], 'version': e['version'], 'path': e['path'],
+                               'msg': e['msg'].case(), 'what': 'ok', 'data': e['data']} for e in exs]}
+        ctx.case(('onestream', tuple((tuple(e['segs']), e['method']) for e in exs)),
+                 tags=['onestream:between=%s' % plan.get('between')] + ['onestream:' + x.outcome for x in results])
+        for k, (e, x) in enumerate(zip(exs, results)):
+            m = e['msg']
+            want = b'' if m.framing == 'none' else (m.payload if m.coding is None else H.one_shot_decode(m.coding, m.payload))
+            if x.outcome != 'ok':
+                ctx.fail('complete-message-error', 'Stream', case,
+                         'exchange %d of %d through ONE Stream object: a complete well-formed response (Content-Encoding %r) ended %s %s; '
+                         'the exchanges before it on this Stream: %s'
+                         % (k, len(exs), m.coding, x.outcome, x.exc, [p['msg'].coding or ('no body' if p['msg'].framing == 'none' else 'identity')
+                                                                        for p in exs[:k]]))
+                break
+            if x.status[1] != m.code or x.body != want:
+                ctx.fail('wrong-body', 'Stream', case, 'exchange %d through ONE Stream object: status %r body %r.., the server sent %d / %r..'
+                         % (k, x.status, x.body[:40], m.code, want[:40]))
+                break
+    if plans:
+        ctx.sample({'stream': 'onestream', 'plans': len(plans)})
+
+
 # ------------------------------------------------------------------ timeout stream
 def timeout_cases():
     """Sequences on ONE Connection object with a read timeout: well-formed exchanges, an exchange
@@ -905,6 +970,13 @@ def _replay(ctx, case, kind=None, where=None):
             css.append(H.cuts_of(case['segs_b']))
         css += [[], list(range(1, len(data)))]
         stream_decode(ctx, [(m, case['variant'], data, eof, css, tuple(case.get('opts', (True, False))))], True)
+    elif s == 'onestream':
+        exs = []
+        for e in case['exchanges']:
+            e = dict(e)
+            e['msg'] = H.Msg.from_case(e['msg'])
+            exs.append(e)
+        stream_onestream(ctx, [{'stream': 'onestream', 'exchanges': exs, 'between': case.get('between')}])
     elif s == 'leave':
         exs = []
         for e in case['exchanges']:
@@ -1181,6 +1253,7 @@ def _run(ctx, pid='C08'):
     stream_session(ctx, app_sequences(wrng, ctx.scale(40, 600)) + web_sequences(wrng, ctx.scale(40, 600)))
     lrng = ctx.subrng('leave')
     stream_leave(ctx, fixed_leave_sequences() + [gen_leave_sequence(lrng) for _ in range(ctx.scale(100, 1500))])
+    stream_onestream(ctx, onestream_plans())
     stream_timeout(ctx, timeout_cases())
     ctx.note('read_sizes', 'the model replays the logged size of every Connection.read; calls are compared one by one')
 
